@@ -88,6 +88,33 @@ def roles(rep, ex: Explorer):
             elif on is False:
                 rep.check(name not in stored, "CNF.roles", site, f"{name} untouched", f"switch {flag} off ⇒ {name} is not written", extracted="written" if name in stored else "untouched", required="untouched", function=site)
     rep.floor("CNF.roles stores of belief_base_to_cnf", len(seen), 3)
+    # every combination of the three switches, given as constants (the operators call it with (True, True, True) and
+    # (False, True, True)): a slot is filled exactly when its own switch is on, whatever the others are
+    from itertools import product
+    n_comb = 0
+    for fv, ff, fnf in product((True, False), repeat=3):
+        def setup_c(I, fv=fv, ff=ff, fnf=fnf):
+            s, es = _mk(I)
+            return [s, Const(fv), Const(ff), Const(fnf)], {}
+
+        cpaths = ex.run(qual, setup_c, summaries=summ, key=f"cnfroles-{fv}-{ff}-{fnf}")
+        for p in cpaths:
+            if p.outcome[0] != "return":
+                continue
+            slots = {}
+            for oid, o in p.state.heap.items():
+                if isinstance(o, HDict) and "v_cnf_dict" in o.entries:
+                    for name in want:
+                        r = o.entries.get(name)
+                        if isinstance(r, Ref):
+                            slots[r.oid] = name
+            stored = {slots[ev.obj.oid] for ev, Q in iter_events(p.events) if ev.kind == "dict.set" and isinstance(ev.obj, Ref) and ev.obj.oid in slots and Q}
+            on = {"v_cnf_dict": fv, "f_cnf_dict": ff, "nf_cnf_dict": fnf}
+            n_comb += 1
+            bad = [f"{nm} {'not filled' if on[nm] else 'filled'}" for nm in want if (nm in stored) != on[nm]]
+            rep.check(not bad, "CNF.roles", site, f"switches v={fv} f={ff} nf={fnf}", "every slot is filled exactly when its own switch is on (the operators switch on different subsets)",
+                      extracted=", ".join(bad) or "as switched", required="filled iff switched on", function=site)
+    rep.floor("CNF.roles switch combinations", n_comb, 8)
     # ---- query_to_cnf
     qual2 = f"{TS}.query_to_cnf"
     site2 = fn_label(ex.prog, qual2)
